@@ -61,26 +61,38 @@ impl<K: Clone + PartialEq + Eq + Hash + std::fmt::Debug + std::cmp::PartialOrd, 
     }
 
     /// Flush key/value pairs from wmap to rmap
+    ///
+    /// Makes room by dropping least recently used entries. Only entries which
+    /// are clean and not referenced by anyone can be dropped: an entry some
+    /// task is using would be changed after it left the cache, and a dirty
+    /// entry which is not written back yet would be re-loaded from its stale
+    /// on-disk copy by the next lookup - either way updates get lost. Dirty
+    /// victims are returned for writing back and stay visible meanwhile; a
+    /// later commit drops them once they are clean. So `limit` can be exceeded
+    /// temporarily, by at most the number of entries in use or in write-back.
     pub(crate) fn commit_wmap(&self) -> Option<Vec<(K, AsyncLruCacheEntry<V>)>> {
         let mut w = self.wmap.lock().unwrap();
         let mut r = self.rmap.write().unwrap();
         let mut vec = Vec::new();
 
         let wlen = w.len();
+        let mut over = (r.len() + wlen).saturating_sub(self.limit);
 
-        while r.len() + wlen > self.limit {
-            let res = self.__pop_lru(&mut r);
+        while over > 0 {
+            let Some(key) = self.__find_lru(&r) else {
+                break;
+            };
+            let dirty = r.get(&key).unwrap().is_dirty();
 
-            if let Some(val) = res {
-                log::warn!(
-                    "lru cache eviction, type {} dirty {}",
-                    crate::helpers::qcow2_type_of(&val.1),
-                    val.1.is_dirty()
-                );
-                if val.1.is_dirty() {
-                    vec.push(val);
-                }
+            log::warn!("lru cache eviction, dirty {}", dirty);
+            if dirty {
+                // the clone keeps this entry from being picked again
+                let entry = Arc::clone(r.get(&key).unwrap());
+                vec.push((key, entry));
+            } else {
+                r.remove(&key);
             }
+            over -= 1;
         }
 
         for (key, value) in w.drain() {
@@ -156,48 +168,28 @@ impl<K: Clone + PartialEq + Eq + Hash + std::fmt::Debug + std::cmp::PartialOrd, 
         vec
     }
 
-    fn __pop_lru(
+    /// least recently used entry which nobody holds a reference to
+    fn __find_lru(
         &self,
-        map: &mut std::sync::RwLockWriteGuard<HashMap<K, AsyncLruCacheEntry<V>>>,
-    ) -> Option<(K, AsyncLruCacheEntry<V>)> {
-        let (_, mut key_out) =
-            map.iter()
-                .fold((usize::MAX, None), |(minl, key_out), (key, entry)| {
-                    // Cannot drop entries that are in use
-                    if Arc::strong_count(entry) > 1 {
-                        (minl, key_out)
-                    } else {
-                        let l = entry.lru.load(Ordering::Relaxed);
-                        if l < minl {
-                            (l, Some(key.clone()))
-                        } else {
-                            (minl, key_out)
-                        }
-                    }
-                });
-
-        if key_out.is_none() {
-            // it is safe to remove cache entry with active user, since the
-            // user holds the reference
-            (_, key_out) = map
-                .iter()
-                .fold((usize::MAX, None), |(min, key_out), (key, entry)| {
+        map: &std::sync::RwLockWriteGuard<HashMap<K, AsyncLruCacheEntry<V>>>,
+    ) -> Option<K> {
+        let (_, key_out) = map
+            .iter()
+            .fold((usize::MAX, None), |(minl, key_out), (key, entry)| {
+                // Cannot drop entries that are in use
+                if Arc::strong_count(entry) > 1 {
+                    (minl, key_out)
+                } else {
                     let l = entry.lru.load(Ordering::Relaxed);
-                    if l < min {
+                    if l < minl {
                         (l, Some(key.clone()))
                     } else {
-                        (min, key_out)
+                        (minl, key_out)
                     }
-                });
-        }
+                }
+            });
 
-        if key_out.is_none() {
-            None
-        } else {
-            let key = key_out.take().unwrap();
-            let entry = map.remove(&key).unwrap();
-            Some((key.clone(), entry))
-        }
+        key_out
     }
 }
 
